@@ -19,6 +19,9 @@ import (
 type ssaFunction = ssa.Function
 
 type KnownFinding struct {
+	ID         string `json:"id"`
+	ReplayPkg  string `json:"replay_pkg"`
+	ReplayRun  string `json:"replay_run"`
 	Property   string `json:"property"`
 	Obligation string `json:"obligation"`
 	Region     string `json:"region"`
@@ -263,6 +266,40 @@ func summarize(s *Session, prop, tier string, reps []*FuncReport, lemmas []*Lemm
 			if len(res.Samples) < 6 && g.Kind == "post" {
 				o := g.Obls[0]
 				res.Samples = append(res.Samples, map[string]interface{}{"name": g.Name, "clause": g.Clause, "result": o.Result, "solver": o.Solver, "time_s": o.TimeS, "queries": len(g.Obls)})
+			}
+			if g.Kind == "known" {
+				// inside query of a recorded finding: informational, never a violation
+				res.Obligations--
+				present := false
+				for _, o := range g.Obls {
+					if o.Result != "unsat" {
+						present = true
+					}
+				}
+				if present {
+					kf := g.Obls[0].Region
+					dup := false
+					for _, h := range res.KnownHit {
+						dup = dup || h == kf
+					}
+					if !dup {
+						res.KnownHit = append(res.KnownHit, kf)
+						line := fmt.Sprintf("KNOWN-FINDING: property=%s %s", prop, kf)
+						if tier == "thorough" {
+							for _, f := range known.Findings {
+								if strings.HasPrefix(kf, f.ID+" ") {
+									if ok, _ := replayKnown(f); ok {
+										line += " [stored demonstration still fails on the real code]"
+									} else {
+										line += " [stored demonstration did not reproduce]"
+									}
+								}
+							}
+						}
+						res.Lines = append(res.Lines, line)
+					}
+				}
+				continue
 			}
 			st := g.Status()
 			switch {
